@@ -151,7 +151,7 @@ def isolation_distance(info, fit_half):
     return 7.3 * s + np.sqrt(2.0) * (fit_half + 1.0)
 
 
-def gen_clusters(rng, sizes, fwhm, dsep, edge_pad):
+def gen_clusters(rng, sizes, fwhm, dsep, edge_pad, elongated=None):
     """Place clusters; returns (xy array (n,2), cluster index per source, image shape)."""
     clusters = []
     for k in sizes:
@@ -174,6 +174,11 @@ def gen_clusters(rng, sizes, fwhm, dsep, edge_pad):
     while True:
         W = side * rng.uniform(1.0, 1.4)
         H = side * rng.uniform(1.0, 1.4)
+        if elongated:
+            # strongly elongated image: the clusters sit along one axis, the other is as short as the windows allow
+            short = 2 * edge_pad + 2 * max(radii) + 1.0
+            long_ = max(side, sum(2 * r + dsep for r in radii) + 2 * edge_pad) * rng.uniform(1.0, 1.3)
+            W, H = (long_, short) if elongated == 'wide' else (short, long_)
         centres = []
         ok = True
         for i in range(n):
